@@ -44,6 +44,17 @@ def run(ctx: Ctx):
   m = model(ctx)
   for r in (r1, r2, r3, r4, r5, r6, r7):
     ctx.guard(r, m)
+  ctx.include('R-C01-8', 'merge leaves its operand intact and shares no'
+              ' mutable state with it (R-C11-1, R-C11-2): a shard state that'
+              ' is altered by being merged gives a different roll-up when it is'
+              ' merged again', _c11_shared, m, min_instances=20)
+  ctx.include('R-C01-9', 'a partial merge stays a sufficient statistic'
+              ' (R-C11-6 lossless merge)', c11.r6, m, min_instances=15)
+
+
+def _c11_shared(sub, m):
+  c11.r1(sub, m)
+  c11.r2(sub, m)
 
 
 def _ctor_fields(m, ci, new_fi):
